@@ -239,8 +239,14 @@ func (r *runner) round(round int, honest []*sent, forged []*tampered) {
 		if acc && tm.v.ok {
 			c.Probe("tampered-admitted-as-other-sender")
 		}
-		if s.kind == kUtx {
+		switch {
+		case s.kind == kUtx:
 			c.Probe("utxo-tampered-judged")
+			c.Probe("offered/utxo-" + tm.comp)
+		case tm.field:
+			c.Probe("offered/field-" + s.kind.String())
+		default:
+			c.Probe("offered/signature-" + s.kind.String())
 		}
 	}
 	if r.stop {
@@ -602,6 +608,9 @@ func (r *runner) commit(blk *types.Block, raws [][]byte, subs []*sent) {
 				if o := subs[i].utx.spent; o != nil {
 					o.spent, o.pending = true, false
 					c.Probe("utxo-spend-committed")
+					if subs[i].utx.withdraw {
+						c.Probe("utxo-withdraw-to-account-committed")
+					}
 				} else {
 					c.Probe("utxo-fund-committed")
 				}
